@@ -614,7 +614,7 @@ func (e *exec) schedule() {
 // Input returns the oracle's input: scalars with the Gap pseudo-symbol (-3)
 // wherever a long gap was realised.
 func (sc *Scn) Input() []int {
-	var in []int
+	in := []int{} // never nil: an empty input must be logged as [], TLC's Json module rejects null
 	for _, c := range sc.Chunks {
 		if c.Long {
 			in = append(in, -3)
